@@ -1,3 +1,672 @@
-"""E4b placeholder (filled in below)"""
-def check_fields(prog, rep, rule, fields, arms, need):
-    rep.error(rule, "location-set inference not implemented yet")
+"""E4b: location-set inference for MultiLocationArray fields of MeshRegion.
+
+MultiLocationArray allocates a location lazily, as zeros, the first time it is read, and
+its ufunc protocol computes a location only when every array operand already has it.
+This module runs the per-region geometry phases (in the order the driver method calls
+them, extracted from source) over the abstract domain
+
+      field  ->  set of locations that hold *computed data*
+
+A location assigned from an expression that reads a location without data does not
+count as data (it is computed from lazily allocated zeros).  `if` arms that are not
+decided by the arm seed (orthogonal / curvature type) are joined by intersection; arms
+ending in `raise` are dropped.  Loops are entered once (nx, ny >= 1).
+
+The rule armed on top: every field handed to the 2-D writer has data at every location
+the writer reads.
+"""
+import ast
+import re
+
+from .model import Program, walk_own, is_self_attr, dotted
+from .report import AnalysisError
+
+ALL = frozenset(("centre", "xlow", "ylow", "corners"))
+LOCS = ("centre", "xlow", "ylow", "corners")
+MESH = "hypnotoad/core/mesh.py"
+
+
+class _Raise(Exception):
+    pass
+
+
+class _Return(Exception):
+    def __init__(self, value):
+        self.value = value
+
+
+class _Break(Exception):
+    pass
+
+
+class _Continue(Exception):
+    pass
+
+
+class Note:
+    """why a location has no data"""
+
+    def __init__(self):
+        self.why = {}
+
+    def set(self, name, loc, text):
+        self.why.setdefault((name, loc), text)
+
+    def get(self, name, loc):
+        return self.why.get((name, loc), "never assigned")
+
+
+class Interp:
+    def __init__(self, prog, seeds, cls="MeshRegion"):
+        self.prog = prog
+        self.mod = prog.module(MESH)
+        self.seeds = seeds
+        self.cls = cls
+        self.note = Note()
+        self.assign_sites = {}
+        self.bad_reads = []  # (site, text, name, loc)
+        self.depth = 0
+        self.calls = []
+        self.last_return = None
+        self.ret_counter = 0
+
+    # ------------------------------------------------------------------ state helpers
+    def method(self, name):
+        f = self.mod.funcs.get(self.cls + "." + name)
+        return f
+
+    def site(self, node):
+        return "%s:%d" % (self.mod.rel, getattr(node, "lineno", 0))
+
+    def text(self, node):
+        return " ".join(self.mod.text(node).split())
+
+    # ------------------------------------------------------------------ expressions
+    def key_of(self, node, st):
+        """state key of an MLA-holding lvalue/rvalue: 'self.X' or local name"""
+        if isinstance(node, ast.Name):
+            if node.id in st["alias"]:
+                return None
+            return node.id
+        if isinstance(node, ast.Attribute) and isinstance(node.value, ast.Name):
+            if node.value.id in st["alias"]:
+                return st["alias"][node.value.id] + "." + node.attr
+        if isinstance(node, ast.Attribute) and isinstance(node.value, ast.Call):
+            # self.getNeighbour("upper").Bpxy
+            d = dotted(node.value.func)
+            if d and d.endswith(".getNeighbour"):
+                return "nbr." + node.attr
+        if isinstance(node, ast.Subscript):
+            # region.__dict__[name] with constant name
+            d = dotted(node.value)
+            if d and d.endswith(".__dict__") and isinstance(node.slice, ast.Constant):
+                return "self." + node.slice.value
+        return None
+
+    def locs(self, node, st, reads):
+        """locations with data of an MLA-valued expression, or None for non-MLA"""
+        data = st["data"]
+        if isinstance(node, ast.Constant):
+            return None
+        k = self.key_of(node, st)
+        if k is not None and k in data:
+            return data[k]
+        if k is not None and k.startswith("nbr.") and "self." + k[4:] in data:
+            # a neighbouring region has run the same phases (symmetry)
+            return data["self." + k[4:]]
+        if isinstance(node, ast.Attribute):
+            if node.attr in LOCS:
+                base = self.locs(node.value, st, reads)
+                if base is not None:
+                    bk = self.key_of(node.value, st) or self.text(node.value)
+                    if node.attr not in base:
+                        reads.append((self.site(node), self.text(node), bk, node.attr))
+                    return None
+                return None
+            if node.attr in ("_centre_array", "_xlow_array", "_ylow_array", "_corners_array", "attributes", "nx", "ny"):
+                return None
+            self.locs(node.value, st, reads)
+            return None
+        if isinstance(node, ast.BinOp):
+            a = self.locs(node.left, st, reads)
+            b = self.locs(node.right, st, reads)
+            return _meet(a, b)
+        if isinstance(node, ast.UnaryOp):
+            return self.locs(node.operand, st, reads)
+        if isinstance(node, ast.Compare):
+            r = self.locs(node.left, st, reads)
+            for c in node.comparators:
+                r = _meet(r, self.locs(c, st, reads))
+            return r
+        if isinstance(node, ast.Subscript):
+            v = self.locs(node.value, st, reads)
+            self.locs(node.slice, st, reads)
+            return None if v is None else v
+        if isinstance(node, (ast.Tuple, ast.List)):
+            for e in node.elts:
+                self.locs(e, st, reads)
+            return None
+        if isinstance(node, ast.Call):
+            return self.call(node, st, reads)
+        if isinstance(node, ast.IfExp):
+            self.locs(node.test, st, reads)
+            return _meet(self.locs(node.body, st, reads), self.locs(node.orelse, st, reads))
+        if isinstance(node, (ast.ListComp, ast.GeneratorExp, ast.JoinedStr, ast.Lambda, ast.Name, ast.Slice, ast.BoolOp, ast.Dict, ast.Starred)):
+            for ch in ast.iter_child_nodes(node):
+                if isinstance(ch, ast.expr):
+                    self.locs(ch, st, reads)
+            return None
+        return None
+
+    def call(self, node, st, reads):
+        d = dotted(node.func)
+        # constructor
+        if d == "MultiLocationArray":
+            return frozenset()
+        if isinstance(node.func, ast.Attribute) and node.func.attr == "zero":
+            base = self.locs(node.func.value, st, reads)
+            if base is not None:
+                return ALL
+        if isinstance(node.func, ast.Attribute) and node.func.attr in ("copy",):
+            base = self.locs(node.func.value, st, reads)
+            if base is not None:
+                return base
+        if d in ("deepcopy", "copy.deepcopy") and node.args:
+            return self.locs(node.args[0], st, reads)
+        # finite differences of a '#name' expression
+        if d and d.split(".")[-1] in ("DDX", "DDY") and st["alias"].get(d.split(".")[0]) == "self":
+            return self.ddxy(d.split(".")[-1], node, st, reads)
+        # methods of the same class
+        if d and st["alias"].get(d.split(".")[0]) == "self" and len(d.split(".")) == 2:
+            f = self.method(d.split(".")[1])
+            if f is not None:
+                return self.run_method(f, st, node)
+        # local closures
+        if isinstance(node.func, ast.Name) and node.func.id in st["closures"]:
+            argl = [self.locs(a, st, reads) for a in node.args]
+            return self.run_closure(st["closures"][node.func.id], st, argl, node)
+        # anything else: elementwise / handleMultiLocationArray semantics
+        r = None
+        for a in list(node.args) + [k.value for k in node.keywords]:
+            v = self.locs(a, st, reads)
+            r = _meet(r, v)
+        if isinstance(node.func, ast.Attribute):
+            self.locs(node.func.value, st, reads)
+        return r
+
+    def ddxy(self, which, node, st, reads):
+        if not node.args or not isinstance(node.args[0], ast.Constant) or not isinstance(node.args[0].value, str):
+            raise AnalysisError("%s called with a non-literal expression at %s" % (which, self.site(node)))
+        s = node.args[0].value
+        names = re.findall(r"#(\w+)", s)
+        src = re.sub(r"#(\w+)", r"self.\1", s)
+        tree = ast.parse(src, mode="eval").body
+        sub = []
+        # evaluate in a pseudo-module: key_of works on the tree; site from the caller
+        f_locs = self._locs_foreign(tree, st, sub)
+        for n in names:
+            if "self." + n not in st["data"]:
+                raise AnalysisError("%s(%r) at %s references self.%s which is not a known field" % (which, s, self.site(node), n))
+        fm = self.method(which)
+        if fm is None:
+            raise AnalysisError("method %s not found" % which)
+        st2 = self.fresh_locals(st)
+        st2["data"]["f"] = f_locs if f_locs is not None else frozenset()
+        st2["fexpr"] = s
+        return self.run_method(fm, st, node, preset=st2)
+
+    def _locs_foreign(self, tree, st, reads):
+        # text() of foreign nodes is unavailable; evaluate structurally
+        data = st["data"]
+        if isinstance(tree, ast.Attribute) and isinstance(tree.value, ast.Name) and tree.value.id == "self":
+            return data.get("self." + tree.attr)
+        if isinstance(tree, ast.BinOp):
+            return _meet(self._locs_foreign(tree.left, st, reads), self._locs_foreign(tree.right, st, reads))
+        if isinstance(tree, ast.UnaryOp):
+            return self._locs_foreign(tree.operand, st, reads)
+        if isinstance(tree, ast.Call):
+            r = None
+            for a in tree.args:
+                r = _meet(r, self._locs_foreign(a, st, reads))
+            return r
+        return None
+
+    # ------------------------------------------------------------------ callables
+    def fresh_locals(self, st):
+        d = {k: v for k, v in st["data"].items() if k.startswith(("self.", "nbr."))}
+        return {"data": d, "alias": {"self": "self"}, "closures": {}}
+
+    def run_method(self, f, st, callnode=None, preset=None):
+        if self.depth > 8:
+            raise AnalysisError("call depth exceeded at %s" % f.qualname)
+        self.depth += 1
+        self.calls.append(f.qualname)
+        try:
+            st2 = preset if preset is not None else self.fresh_locals(st)
+            ret = None
+            try:
+                self.block(f.node.body, st2)
+            except _Return as r:
+                ret = r.value
+            # publish self.* changes back
+            for k, v in st2["data"].items():
+                if k.startswith(("self.", "nbr.")):
+                    st["data"][k] = v
+            for k in list(st["data"]):
+                if k.startswith(("self.", "nbr.")) and k not in st2["data"]:
+                    del st["data"][k]
+            return ret
+        finally:
+            self.depth -= 1
+
+    def run_closure(self, fnode, st, argl, callnode):
+        if self.depth > 8:
+            raise AnalysisError("call depth exceeded in closure")
+        self.depth += 1
+        try:
+            st2 = {"data": dict(st["data"]), "alias": dict(st["alias"]), "closures": dict(st["closures"])}
+            params = [a.arg for a in fnode.args.args]
+            for p, v in zip(params, argl):
+                if v is not None:
+                    st2["data"][p] = v
+                else:
+                    st2["data"].pop(p, None)
+            try:
+                self.block(fnode.body, st2)
+            except _Return as r:
+                return r.value
+            return None
+        finally:
+            self.depth -= 1
+
+    # ------------------------------------------------------------------ statements
+    def block(self, stmts, st):
+        for s in stmts:
+            self.stmt(s, st)
+
+    def decide(self, test, st):
+        t = self.text(test)
+        for key, val in self.seeds.items():
+            if key in t:
+                neg = isinstance(test, ast.UnaryOp) and isinstance(test.op, ast.Not)
+                return (not val) if neg else val
+        # `X.loc is not None` / `is None` on a lazily allocating property: never None
+        if isinstance(test, ast.Compare) and len(test.ops) == 1 and isinstance(test.comparators[0], ast.Constant) and test.comparators[0].value is None:
+            l = test.left
+            if isinstance(l, ast.Attribute) and l.attr in LOCS:
+                if isinstance(test.ops[0], ast.IsNot):
+                    return True
+                if isinstance(test.ops[0], ast.Is):
+                    return False
+        return None
+
+    def stmt(self, s, st):
+        data = st["data"]
+        if isinstance(s, ast.Expr):
+            r = []
+            self.locs(s.value, st, r)
+            return
+        if isinstance(s, ast.Assign):
+            for t in s.targets:
+                self.assign(t, s.value, st, s)
+            return
+        if isinstance(s, ast.AugAssign):
+            self.augassign(s, st)
+            return
+        if isinstance(s, ast.If):
+            dec = self.decide(s.test, st)
+            rr = []
+            self.locs(s.test, st, rr)
+            if dec is True:
+                return self.block(s.body, st)
+            if dec is False:
+                return self.block(s.orelse, st)
+            outcomes = []
+            for arm in (s.body, s.orelse):
+                c = _copy(st)
+                try:
+                    self.block(arm, c)
+                    outcomes.append(("ok", c))
+                except _Raise:
+                    outcomes.append(("raise", None))
+                except _Return as r:
+                    outcomes.append(("return", r))
+                except _Break:
+                    outcomes.append(("break", c))
+                except _Continue:
+                    outcomes.append(("continue", c))
+            oks = [c for k, c in outcomes if k == "ok"]
+            if not oks:
+                kinds = [k for k, _ in outcomes]
+                if all(k == "raise" for k in kinds):
+                    raise _Raise()
+                for k, c in outcomes:
+                    if k == "return":
+                        raise c
+                    if k == "break":
+                        _assign_state(st, c)
+                        raise _Break()
+                    if k == "continue":
+                        _assign_state(st, c)
+                        raise _Continue()
+            if len(oks) == 1:
+                # a `return <value>` arm next to a normal arm is not modelled
+                for k, c in outcomes:
+                    if k == "return" and c.value is not None:
+                        raise AnalysisError("conditional return of a value at %s" % self.site(s))
+                _assign_state(st, oks[0])
+                return
+            _assign_state(st, _join(oks[0], oks[1], self.note, self.site(s)))
+            return
+        if isinstance(s, (ast.For, ast.While)):
+            if isinstance(s, ast.For):
+                rr = []
+                self.locs(s.iter, st, rr)
+                # `for t in [theta.centre, ...]`: elementwise in-place edits keep data
+            try:
+                self.block(s.body, st)
+            except _Break:
+                pass
+            except _Continue:
+                pass
+            return
+        if isinstance(s, ast.FunctionDef):
+            st["closures"][s.name] = s
+            return
+        if isinstance(s, ast.Return):
+            rr = []
+            v = None if s.value is None else self.locs(s.value, st, rr)
+            if s.value is not None and isinstance(s.value, ast.Name) and s.value.id in data:
+                v = data[s.value.id]
+                # keep the reasons for missing locations under a per-call key
+                self.ret_counter += 1
+                rk = "ret%d:%s" % (self.ret_counter, s.value.id)
+                for (nm, loc), txt in list(self.note.why.items()):
+                    if nm == s.value.id:
+                        self.note.why[(rk, loc)] = txt
+                        del self.note.why[(nm, loc)]
+                self.last_return = rk
+            raise _Return(v)
+        if isinstance(s, ast.Raise):
+            raise _Raise()
+        if isinstance(s, ast.Break):
+            raise _Break()
+        if isinstance(s, ast.Continue):
+            raise _Continue()
+        if isinstance(s, ast.With):
+            return self.block(s.body, st)
+        if isinstance(s, ast.Try):
+            return self.block(s.body, st)
+        return
+
+    def assign(self, t, value, st, s):
+        data = st["data"]
+        # alias tracking: region = self ; next_region = region.getNeighbour(..)
+        if isinstance(t, ast.Name):
+            if isinstance(value, ast.Name) and value.id in st["alias"]:
+                st["alias"][t.id] = st["alias"][value.id]
+                return
+            if isinstance(value, ast.Call):
+                d = dotted(value.func)
+                if d and d.endswith(".getNeighbour") and d.split(".")[0] in st["alias"]:
+                    st["alias"][t.id] = "nbr"
+                    return
+        # whole-object assignment
+        k = self.key_of(t, st)
+        if k is not None:
+            reads = []
+            v = self.locs(value, st, reads)
+            if v is None:
+                data.pop(k, None)
+                if isinstance(t, ast.Name):
+                    st["alias"].pop(t.id, None)
+                return
+            if reads:
+                for site, text, nm, loc in reads:
+                    self.bad_reads.append((site, text, nm, loc))
+            data[k] = v
+            self.assign_sites[k] = self.site(s)
+            for loc in (ALL - v if not (isinstance(value, ast.Call) and dotted(value.func) == "MultiLocationArray") else ()):
+                why = None
+                if isinstance(value, ast.Call) and self.last_return is not None:
+                    why = self.note.why.get((self.last_return, loc))
+                self.note.set(k, loc, (why or self._why_missing(value, st, loc)) + " [assigned at " + self.site(s) + "]")
+            self.last_return = None
+            return
+        # location assignment  X.loc = / X.loc[...] =
+        tgt = t
+        if isinstance(tgt, ast.Subscript):
+            tgt = tgt.value
+        if isinstance(tgt, ast.Attribute) and tgt.attr in LOCS:
+            k = self.key_of(tgt.value, st)
+            if k is not None and k in data:
+                reads = []
+                self.locs(value, st, reads)
+                if isinstance(t, ast.Subscript):
+                    self.locs(t.slice, st, reads)
+                if reads:
+                    site, text, nm, loc = reads[0]
+                    self.note.set(k, tgt.attr, "computed from %s, which has no data (%s), at %s" % (text, self.note.get(nm, loc), self.site(s)))
+                    for r in reads:
+                        self.bad_reads.append(r)
+                    if isinstance(t, ast.Subscript) and tgt.attr in data[k]:
+                        # partial overwrite of a location that had data: now tainted
+                        data[k] = data[k] - {tgt.attr}
+                else:
+                    data[k] = data[k] | {tgt.attr}
+                return
+        rr = []
+        self.locs(value, st, rr)
+
+    def augassign(self, s, st):
+        data = st["data"]
+        t = s.target
+        k = self.key_of(t, st)
+        if k is not None and k in data:
+            reads = []
+            v = self.locs(s.value, st, reads)
+            if v is not None:
+                lost = data[k] - v
+                for loc in lost:
+                    self.note.set(k, loc, "in-place ufunc with operand lacking %s at %s" % (loc, self.site(s)))
+                data[k] = data[k] & v
+            return
+        tgt = t.value if isinstance(t, ast.Subscript) else t
+        if isinstance(tgt, ast.Attribute) and tgt.attr in LOCS:
+            k = self.key_of(tgt.value, st)
+            if k is not None and k in data:
+                reads = []
+                self.locs(s.value, st, reads)
+                if tgt.attr not in data[k]:
+                    reads.append((self.site(s), self.text(tgt), k, tgt.attr))
+                if reads:
+                    site, text, nm, loc = reads[0]
+                    self.note.set(k, tgt.attr, "updated from %s, which has no data, at %s" % (text, self.site(s)))
+                    data[k] = data[k] - {tgt.attr}
+                    self.bad_reads.extend(reads)
+                return
+        rr = []
+        self.locs(s.value, st, rr)
+
+    def _why_missing(self, value, st, loc):
+        for n in ast.walk(value):
+            k = self.key_of(n, st) if isinstance(n, (ast.Name, ast.Attribute)) else None
+            if k is not None and k in st["data"] and loc not in st["data"][k]:
+                return "operand %s has no %s data (%s)" % (k, loc, self.note.get(k, loc))
+        return "expression yields no %s" % loc
+
+
+def _meet(a, b):
+    if a is None:
+        return b
+    if b is None:
+        return a
+    return a & b
+
+
+def _copy(st):
+    return {"data": dict(st["data"]), "alias": dict(st["alias"]), "closures": dict(st["closures"])}
+
+
+def _assign_state(st, c):
+    st["data"].clear()
+    st["data"].update(c["data"])
+    st["alias"].clear()
+    st["alias"].update(c["alias"])
+    st["closures"].update(c["closures"])
+
+
+def _join(a, b, note, site):
+    d = {}
+    for k in a["data"]:
+        if k in b["data"]:
+            d[k] = a["data"][k] & b["data"][k]
+            for loc in (a["data"][k] | b["data"][k]) - d[k]:
+                note.set(k, loc, "assigned on only one arm of the test at " + site)
+    al = {k: v for k, v in a["alias"].items() if b["alias"].get(k) == v}
+    return {"data": d, "alias": al, "closures": {**a["closures"], **b["closures"]}}
+
+
+# ---------------------------------------------------------------------------------
+# driver: phase order from the mesh driver methods, then the writer's requirements
+# ---------------------------------------------------------------------------------
+def phase_order(prog):
+    """names of MeshRegion methods in the order Mesh.geometry (and the helper it calls)
+    invokes them on every region; extracted from `for region in ...: region.m()` loops."""
+    mod = prog.module(MESH)
+    g = mod.funcs.get("Mesh.geometry")
+    if g is None:
+        raise AnalysisError("Mesh.geometry not found")
+    order = []
+
+    def visit(fn):
+        for s in fn.node.body:
+            for n in ast.walk(s) if not isinstance(s, ast.For) else [s]:
+                pass
+            _collect(s, fn)
+
+    def _collect(s, fn):
+        if isinstance(s, ast.For):
+            tgt = s.target.id if isinstance(s.target, ast.Name) else None
+            for b in s.body:
+                if isinstance(b, ast.Expr) and isinstance(b.value, ast.Call):
+                    d = dotted(b.value.func)
+                    if d and tgt and d.startswith(tgt + "."):
+                        order.append(d.split(".")[1])
+                    elif d and d.startswith("self."):
+                        sub = mod.funcs.get("Mesh." + d.split(".")[1])
+                        if sub is not None:
+                            visit(sub)
+                elif isinstance(b, ast.If):
+                    for bb in b.body:
+                        _collect_simple(bb)
+        elif isinstance(s, ast.Expr) and isinstance(s.value, ast.Call):
+            _collect_simple(s)
+
+    def _collect_simple(s):
+        if isinstance(s, ast.Expr) and isinstance(s.value, ast.Call):
+            d = dotted(s.value.func)
+            if d and d.startswith("self."):
+                sub = mod.funcs.get("Mesh." + d.split(".")[1])
+                if sub is not None and sub.name != "smoothnl":
+                    visit(sub)
+
+    visit(g)
+    return order
+
+
+def writer_requirements(prog):
+    """(fields passed to the 2-D collector with their guarding condition text,
+        locations the 2-D writer reads)"""
+    mod = prog.module(MESH)
+    geo = mod.funcs.get("BoutMesh.geometry")
+    if geo is None:
+        raise AnalysisError("BoutMesh.geometry not found")
+    fields = []
+
+    def walk(stmts, cond):
+        for s in stmts:
+            if isinstance(s, ast.Expr) and isinstance(s.value, ast.Call) and isinstance(s.value.func, ast.Name):
+                if s.value.func.id == "addFromRegions" and s.value.args and isinstance(s.value.args[0], ast.Constant):
+                    fields.append((s.value.args[0].value, cond, s.lineno))
+            elif isinstance(s, ast.If):
+                t = " ".join(mod.text(s.test).split())
+                walk(s.body, (cond + " and " if cond else "") + t)
+                walk(s.orelse, (cond + " and " if cond else "") + "not (" + t + ")")
+
+    walk(geo.node.body, "")
+    wa = mod.funcs.get("BoutMesh.writeArray")
+    if wa is None:
+        raise AnalysisError("BoutMesh.writeArray not found")
+    p = wa.node.args.args[2].arg
+    locs = []
+    for n in ast.walk(wa.node):
+        if isinstance(n, ast.Attribute) and isinstance(n.value, ast.Name) and n.value.id == p and n.attr in LOCS:
+            if n.attr not in locs:
+                locs.append(n.attr)
+    return fields, locs
+
+
+ARMS = {
+    "orthogonal": {"orthogonal": True, "shiftedmetric": True, 'curvature_type == "curl(b/B) with x-y derivatives"': False,
+                   'curvature_type == "curl(b/B)"': True, "cap_Bp_ylow_xpoint": False, "hasattr": True, "yGroupIndex != 0": False,
+                   "Bp_dot_grady < 0": False, "psi_vals[0] > self.psi_vals[-1]": False},
+    "non-orthogonal": {"orthogonal": False, "shiftedmetric": True, 'curvature_type == "curl(b/B) with x-y derivatives"': False,
+                       'curvature_type == "curl(b/B)"': True, "cap_Bp_ylow_xpoint": False, "hasattr": True, "yGroupIndex != 0": False,
+                       "Bp_dot_grady < 0": False, "psi_vals[0] > self.psi_vals[-1]": False},
+    "orthogonal/xy-curvature": {"orthogonal": True, "shiftedmetric": True, 'curvature_type == "curl(b/B) with x-y derivatives"': True,
+                                "cap_Bp_ylow_xpoint": False, "hasattr": True, "yGroupIndex != 0": False,
+                                "Bp_dot_grady < 0": False, "psi_vals[0] > self.psi_vals[-1]": False},
+}
+
+_cache = {}
+
+
+def infer(prog, arm):
+    key = (id(prog), arm)
+    if key in _cache:
+        return _cache[key]
+    it = Interp(prog, ARMS[arm])
+    st = {"data": {}, "alias": {"self": "self"}, "closures": {}}
+    order = phase_order(prog)
+    if len(order) < 6:
+        raise AnalysisError("phase order extraction found only %s" % order)
+    for name in order:
+        f = it.method(name)
+        if f is None:
+            raise AnalysisError("phase method MeshRegion.%s not found" % name)
+        try:
+            it.run_method(f, st)
+        except _Raise:
+            raise AnalysisError("phase %s raises unconditionally on arm %s" % (name, arm))
+    _cache[key] = (it, st, order)
+    return _cache[key]
+
+
+def check_fields(prog, rep, rule, fields, arms, need, prefix=""):
+    """obligation per (arm, field, location): the field has computed data there"""
+    wfields, wlocs = writer_requirements(prog)
+    written = {n for n, c, l in wfields}
+    for arm in arms:
+        it, st, order = infer(prog, arm)
+        rep.analysed_add("phases(" + arm + ")", order)
+        for fld in fields:
+            if fld not in written:
+                rep.ob(rule, "%s: field %s is handed to the 2-D writer" % (arm, fld), False,
+                       MESH, "no addFromRegions(%r) call found" % fld, key="%s/%s/unwritten" % (arm, fld))
+                continue
+            have = st["data"].get("self." + fld)
+            if have is not None and "nbr." + fld in st["data"]:
+                # fields initialised for the next region of a chain by its predecessor
+                for loc in have - st["data"]["nbr." + fld]:
+                    it.note.set("self." + fld, loc, "hand-over to the next region of the chain does not set %s (%s)" % (loc, it.note.get("nbr." + fld, loc)))
+                have = have & st["data"]["nbr." + fld]
+            if have is None:
+                rep.ob(rule, "%s: %s is a MultiLocationArray field" % (arm, fld), False, MESH,
+                       "self.%s is never assigned a MultiLocationArray on this arm" % fld, key="%s/%s/absent" % (arm, fld))
+                continue
+            for loc in need:
+                ok = loc in have
+                rep.ob(rule, "%s: %s has computed data at %s (written as %s%s)" % (arm, fld, loc, fld, "" if loc == "centre" else "_" + loc),
+                       ok, it.assign_sites.get("self." + fld, MESH),
+                       "" if ok else it.note.get("self." + fld, loc), key="%s/%s/%s" % (arm, fld, loc))
